@@ -19,3 +19,8 @@ package goast
 //@   assigns nothing
 //@   loop 0
 //@     invariant forall i int {f.Imports[i]} :: 0 <= i && i < #k ==> unquoted(f.Imports[i].Path.Value) != path
+
+// Rewrites every token.Pos below n with the given function (reflection over the tree; summarised).
+//@ func TransformPos(n, transform)
+//@   trusted applies the position transformation to every token.Pos field below the node by reflection: summarised
+//@   assigns group(ast)
